@@ -1,7 +1,7 @@
 #!/usr/bin/env python3
 """Fast regression over seeded/ and neutral/: like run_seeded.py / run_neutral.py but each patch is applied to its own
 scratch copy of /repo (VERIF_REPO), several in parallel, so /repo is never touched.
-    tools/run_patches.py seeded|neutral [id-substring ...]      (results are printed, RESULTS.json is NOT rewritten)
+    tools/run_patches.py seeded|neutral [id-substring ...]      (results are printed and merged into <kind>/RESULTS.json)
 The registered way to try a patch remains: git -C /repo apply <patch>; bin/check ...; git -C /repo checkout -- ."""
 import concurrent.futures, json, os, shutil, subprocess, sys, tempfile
 VERIF = os.path.dirname(os.path.dirname(os.path.abspath(__file__)))
@@ -38,15 +38,21 @@ def one(sid):
 
 
 bad = 0
+res_path = os.path.join(sd, "RESULTS.json")
+results = json.load(open(res_path)) if os.path.exists(res_path) else {}
 with concurrent.futures.ThreadPoolExecutor(max_workers=int(os.environ.get("VERIF_JOBS", "4"))) as ex:
     for sid, fired, err in ex.map(one, ids):
         if err:
             print(sid, "ERROR", err)
             bad += 1
         elif kind == "seeded":
+            results[sid] = {"fired": fired, "caught": bool(fired)}
             print(sid, ("CAUGHT by " + ", ".join("%s[%s]" % (k, "; ".join(v)[:90]) for k, v in fired.items())) if fired else "MISSED")
             bad += 0 if fired else 1
         else:
+            results[sid] = {"fired": fired, "false_alarm": bool(fired)}
             print(sid, ("FALSE ALARM by " + ", ".join("%s[%s]" % (k, "; ".join(v)[:120]) for k, v in fired.items())) if fired else "silent (correct)")
             bad += 1 if fired else 0
+if os.environ.get("VERIF_WRITE_RESULTS", "1") == "1":
+    json.dump(results, open(res_path, "w"), indent=1, sort_keys=True)
 print("%s: %d patches, %d %s" % (kind, len(ids), bad, "missed" if kind == "seeded" else "false alarms"))
